@@ -1245,6 +1245,9 @@ def run(R, escalate=False):
             sc = S.gen_scenario(prng, n_tags=prng.randint(3, 12)) if small else S.gen_scenario(prng)
             if prng.random() < 0.35:
                 decorate(prng, sc)
+            if prng.random() < 0.4:
+                collide_handles(prng, sc)
+                R.count("project_features", "structure handles shared by different templates")
             run_project(R, tp, tpv, mp, sc, f"seed {seed}", n_variants, prng, detail_every=5)
             if k % 2 == 0 and len(recorded) < 40:        # frame scripts of small projects for the malformed stream
                 v = S.gen_scenario(prng, n_tags=prng.randint(2, 6))
@@ -1339,6 +1342,17 @@ def decorate(rng, sc):
                  "bitpos": 0, "system": False, "access": 0, "attr3": 1, "attr5": 2, "attr6": 1 << 26}
             sc.tags.append(g)
             sc.mem[inst] = bytes(sc.tag_size(g))
+
+
+def collide_handles(rng, sc):
+    """the structure handle is a 16-bit checksum of the definition: different templates may report the same one
+    (the property quantifies over all projects; a client must key definitions by template instance, not by handle)"""
+    ts = [t for t in sc.templates]
+    if len(ts) < 2:
+        return
+    for _ in range(rng.randint(1, 3)):
+        a, b = rng.sample(ts, 2)
+        b["handle"] = a["handle"]
 
 
 def replay(R, rp):
